@@ -31,15 +31,19 @@ func (P) Rule() string {
 	return "case = one fresh mitm.Config (harness CA) driven by 8-30 ops: get/hs (GetCertificate directly or a real tls handshake over net.Pipe; " +
 		"TLS() or TLSForHost(fallback); SNI present/absent) over a pool of hosts in every spelling (LDH names in mixed case, IPv4, bare IPv6, " +
 		"[v6]:port, host:port, empty, :port, plus excluded/malformed spellings), SetValidity/SetOrganization, expire (sleep past the window of " +
-		"2-second certificates), conc (16 concurrent requesters over 4 hosts); or a batch of net.SplitHostPort / net.ParseIP strings from a " +
+		"2-second certificates), conc (16 concurrent requesters over 4 hosts), vhl/vwl (x509 VerifyHostname / Verify at the window edges of the " +
+		"leaf just served, against other spellings of the same host and against neighbours); hosts are drawn half from tables, half from the " +
+		"grammar of the class (random LDH names, IPv4, IPv6 incl. last group all digits / v4-mapped / compressed, random ports); or a batch of " +
+		"vh/vfy ops (x509 on hand-made certificates with chosen SAN sets incl. wildcards, trailing dots, several entries x host spellings x " +
+		"window edges x trusted/untrusted signer); or a batch of net.SplitHostPort / net.ParseIP strings from a " +
 		"grammar; distinct by hash of the op list; non-trivial when the case shows at least two outcome kinds among fresh / cached / refused " +
-		"(stdlib batches: both an accepted and a rejected string)"
+		"(stdlib and verifier batches: both an accepted and a rejected input)"
 }
 
 func (P) Nontrivial(ops []string, impl []string) bool {
 	kinds := map[string]bool{}
 	for _, l := range impl {
-		for _, k := range []string{" fresh ", " cached ", "refused", "shp ok", "shp err", "ip none"} {
+		for _, k := range []string{" fresh ", " cached ", "refused", "shp ok", "shp err", "ip none", "vh ok", "vh no", "vfy ok", "vfy expired", "vfy hostname", "vfy authority"} {
 			if strings.Contains(l, k) {
 				kinds[k] = true
 			}
@@ -64,7 +68,9 @@ var (
 func setupCA() {
 	caOnce.Do(func() {
 		var err error
-		caCert, caKey, err = mitm.NewAuthority("verif-c06-ca", "Verif C06 Authority", 24*time.Hour)
+		// 30 days: every leaf window the cases produce (validity up to 24 h) and every CurrentTime the
+		// vfy/vwl ops choose lies well inside the CA's own window.
+		caCert, caKey, err = mitm.NewAuthority("verif-c06-ca", "Verif C06 Authority", 30*24*time.Hour)
 		if err != nil {
 			panic(err)
 		}
@@ -95,6 +101,9 @@ type ex struct {
 	orgAt     map[string]string // serial -> organisation configured when it was first seen
 	leaves    []*x509.Certificate
 	shortAt   time.Time // when the oldest unexpired short-lived certificate was handed out
+	last      *x509.Certificate // leaf most recently served by get/hs (ops vhl, vwl)
+	lastHost  string            // the host that request named (SNI or fallback)
+	tainted   bool              // real time ran ahead of the model's clock: oracle only from here on
 }
 
 func (P) NewExec() core.Exec {
@@ -336,13 +345,26 @@ func (e *ex) tlsConfig(mode, fb string) *tls.Config {
 	return e.cfg().TLSForHost(fb)
 }
 
+// hazard: the model's clock advances 1 ms per op; the real one does whatever the machine allows. A 2-second leaf
+// expires between 1 and 2 s after it was handed out, so an op that comes later than 900 ms after the first such
+// leaf (and before the `expire` op) may see it expired while the model still reuses it. That is a property of the
+// schedule, not of the code: from then on the case is judged by the oracle alone (SkipModel), never compared.
 func (e *ex) hazard() {
-	if !e.shortAt.IsZero() && time.Since(e.shortAt) > 900*time.Millisecond {
-		core.Count("timing-hazard(op-later-than-900ms-after-short-cert)")
+	if !e.shortAt.IsZero() && time.Since(e.shortAt) > 900*time.Millisecond && !e.tainted {
+		core.Count("timing-hazard(op-later-than-900ms-after-short-cert):rest-of-case-oracle-only")
+		e.tainted = true
 	}
 }
 
 func (e *ex) Do(op string) core.Result {
+	r := e.do(op)
+	if e.tainted {
+		r.SkipModel = true
+	}
+	return r
+}
+
+func (e *ex) do(op string) core.Result {
 	t := strings.Fields(op)
 	if len(t) == 0 {
 		return core.Result{Impl: "bad-op"}
@@ -404,6 +426,7 @@ func (e *ex) Do(op string) core.Result {
 			s.t1 = time.Now()
 			r := e.check(t[1], fb, sni, s)
 			r.Impl = e.show(s, base, nil, "")
+			e.remember(t[1], fb, sni, s)
 			core.Count("op:get-" + t[1] + sniKind(sni))
 			return r
 		}
@@ -424,6 +447,8 @@ func (e *ex) Do(op string) core.Result {
 		}
 		e.hazard()
 		return e.concurrent(hosts)
+	case "vh", "vfy", "vhl", "vwl":
+		return e.verifyOp(t)
 	case "shp":
 		if len(t) != 2 {
 			break
@@ -516,6 +541,7 @@ func (e *ex) handshake(mode, fb, sni string, base map[string]bool) core.Result {
 	}
 	r := e.check(mode, fb, sni, rec)
 	r.Impl = "hs " + e.show(rec, base, nil, "")
+	e.remember(mode, fb, sni, rec)
 	if r.Fail != "" {
 		return r
 	}
